@@ -21,7 +21,7 @@ TABLE = {
             "path is checked to pop the user from every engine, and the map's writers are enumerated. This settles the "
             "pairing for every connect/disconnect history, which is the part of the property tests cannot enumerate.",
             "Decides the pairing structure in aggregator.py; assumes the pub/sub library invokes the subscribe and "
-            "disconnect callbacks once per connection; does not decide register/unregister REST behaviour. (R37e) the removal loop does not suspend while iterating the live engine map. (R37f) the recorded user id is the whole topic remainder after 'dead_man_switch/'; (R37g, R37h) one user per connection and registration without a live connection are open known findings."),
+            "disconnect callbacks once per connection; does not decide register/unregister REST behaviour. (R37e) the removal loop does not suspend while iterating the live engine map. (R37f) the recorded user id is the whole topic remainder after 'dead_man_switch/'; (R37g) the acquire site accumulates every user of a connection; (R37h) registration without a live connection is an open known finding."),
     "C30": ("plot-log / recent-run pairing: must-pass-through and kill queries on CFGs, who-may-call",
             "Every path to create_plot_log in run_started must have assigned fresh run data; every store_recent_run in "
             "run_stopped is under has_run() and followed on all paths by reset_run(); callers of both repository methods "
